@@ -19,6 +19,7 @@ class RefConf(object):
     self.decl = {}      # key -> default or NOTSET
     self.loaded = {}
     self.flags = dict(flags or {})
+    self.snaps = []     # observations made by body op 'snap' (not part of the state)
 
   def state(self):
     return (tuple(sorted((k, repr(v)) for k, v in self.decl.items())),
@@ -99,6 +100,8 @@ class RefConf(object):
       raise RefErr('noattrset')
     elif kind == 'peek':
       pass          # the wrapped function reads every view: no effect on the state
+    elif kind == 'snap':
+      self.snaps.append((set(self.decl), {k: (type(v).__name__, repr(v)) for k, v in self.asdict_declared().items()}))
     elif kind == 'sar':
       # save_and_restore(**op[1]) around body ops op[2]; op[3] = body raises
       saved = dict(self.loaded)
